@@ -389,6 +389,9 @@ class Interp:
                     return l + r
                 if isinstance(l, (int, float)) and isinstance(r, (int, float)):
                     return l + r
+                if (isinstance(l, (int, float)) and isinstance(r, (Atom, Opaque))) or \
+                        (isinstance(r, (int, float)) and isinstance(l, (Atom, Opaque))):
+                    return Atom('computed:int')
             if isinstance(e.op, ast.Mod) and isinstance(l, S):
                 raise AnalysisError('%-formatting of a statement template is not modelled')
             return Opaque('binop')
@@ -454,6 +457,11 @@ class Interp:
             return Opaque('subscript')
         if isinstance(e, ast.Call):
             return self._call(e, env)
+        if isinstance(e, ast.UnaryOp) and isinstance(e.op, ast.USub):
+            v = self._expr(e.operand, env)
+            if isinstance(v, (int, float)):
+                return -v
+            return Opaque('neg')
         if isinstance(e, ast.Compare) or isinstance(e, ast.BoolOp) or isinstance(e, ast.UnaryOp):
             for sub in ast.iter_child_nodes(e):
                 if isinstance(sub, ast.expr):
